@@ -15,6 +15,7 @@ OPS = {
     "constrain": {"spec_only": True}, "styled": {"spec_only": True}, "tree": {"spec_only": True},
     "rule": {}, "bar": {}, "pbar": {}, "columns": {"res": True}, "columns_render": {"spec_only": True},
     "columns_twice": {"spec_only": True}, "columns_alias": {"spec_only": True}, "container_twice": {"spec_only": True},
+    "print_frame": {"spec_only": True}, "print_width": {},
 }
 
 ASCII = "abcXYZ 09-_"
@@ -226,6 +227,16 @@ def generate(rng, tier):
         n = rng.choice([1, 2, 3, 5, rng.randint(1, 9)])
         labels = [s2t("i%d%s" % (i, "x" * rng.randint(0, 4))) for i in range(n)]
         cases.append(("container_twice", [labels, rng.randrange(1, 4), rng.randrange(5), rng.randint(0, 1), rng.randint(24, 90)]))
+    # ---- frames printed through console.print(r, width=N) / console.log(r): N below, equal to, above W, 0, none
+    for _ in range(260 * k):
+        W = rng.choice([rng.randint(8, 30), rng.randint(20, 80)])
+        N = rng.choice([[], [0], [W], [W - rng.randint(1, 6)], [W + rng.randint(1, 30)], [rng.randint(6, 120)]])
+        kind = rng.randrange(6)
+        text = s2t(rtext(rng, rng.choice([4, 12, 30]), nl=False).strip() or "x")   # empty bodies: log prints a blank line, render none
+        labels = [s2t("i%d" % i) for i in range(rng.randint(1, 7))]
+        via_log = 1 if (not N and rng.random() < 0.5) else 0
+        cases.append(("print_frame", [kind, text, labels, rng.randrange(3), rng.randint(0, 1), N, W, via_log]))
+        cases.append(("print_width", [N, W]))
     # ---- trees
     for _ in range(350 * k):
         def node(d):
@@ -517,6 +528,76 @@ def impl(op, arg):
         for ln in lines:
             seen.append([int(m.group(1)) for m in re.finditer(r"i(\d+)x*", ln)])
         return [len(labels), cc, grid, seen]
+    if op == "print_width":
+        # the width Console.print hands to the renderable, observed from inside
+        N, W = arg
+        import io
+        from rich.console import Console
+        seen = []
+
+        class Spy:
+            def __rich_console__(self, console, options):
+                seen.append(options.max_width)
+                return
+                yield
+        con = Console(file=io.StringIO(), width=W, color_system=None, legacy_windows=False, _environ={})
+        con.print(Spy(), width=N[0] if N else None)
+        return seen[0] if seen else -1
+    if op == "print_frame":
+        kind, text, labels, how, flag, N, W, via_log = arg
+        import io
+        from rich.console import Console
+        from rich.text import Text
+        body = Text(t2s(text))
+
+        def make():
+            if kind == 0:
+                from rich.panel import Panel
+                return Panel(body, title=Text("t") if flag else None, title_align=ALIGN[how]), True
+            if kind == 1:
+                from rich.padding import Padding
+                return Padding(body, (1, 2)), True
+            if kind == 2:
+                from rich.align import Align
+                return Align(body, ALIGN[how]), True
+            if kind == 3:
+                from rich.rule import Rule
+                return Rule(body if flag else "", align=ALIGN[how]), True
+            if kind == 4:
+                from rich.columns import Columns
+                return Columns([Text(t2s(x)) for x in labels], column_first=bool(flag)), False
+            from rich.tree import Tree
+            tr = Tree(body)
+            for x in labels:
+                tr.add(Text(t2s(x)))
+            return tr, True
+        fr, exact = make()
+        con = Console(file=io.StringIO(), width=W, color_system=None, legacy_windows=False, _environ={},
+                      log_time=False, log_path=False)
+        if via_log:
+            con.log(fr)
+        else:
+            con.print(fr, width=N[0] if N else None)
+        out = con.file.getvalue()
+        printed = out.split("\n")
+        if printed and printed[-1] == "":
+            printed.pop()
+        # the same frame rendered directly at the candidate widths (the checker picks the model's effective width)
+        cands = sorted({W} | ({N[0], min(N[0], W)} if N else set()))
+        table = []
+        for w in cands:
+            if w < 1:
+                table.append([w, []])
+                continue
+            c2, o2 = console_opts(w)
+            table.append([w, [s2t(_text(l)) for l in lines_of(c2, make()[0], o2)]])
+        if via_log:
+            # log wraps the renderable in an expanding grid, which pads every line to the console width: compare
+            # without trailing blanks; intactness and the bound are required, not the exact line width
+            exact = False
+            printed = [x.rstrip(" ") for x in printed]
+            table = [[w, [s2t(t2s(l).rstrip(" ")) for l in ls]] for w, ls in table]
+        return [N, W, 1 if exact else 0, table, [s2t(x) for x in printed]]
     if op == "columns_twice":
         labels, src, pl, pr, equal, cf, rtl, measure, W = arg
         from rich.columns import Columns
@@ -700,7 +781,7 @@ def spec_cases(op, arg, out):
     if isinstance(out, dict):
         # an exception where none is expected: let the corr op fail visibly
         if op in ("padding", "panel", "align", "constrain", "styled", "tree", "columns_render", "columns_twice",
-                  "columns_alias", "container_twice"):
+                  "columns_alias", "container_twice", "print_frame"):
             return [("spec.frame_ok", [[], 0, 0, [], [], [], [], [[[120, []]]], []])]
         return []
     if op in ("padding", "panel", "align"):
@@ -725,6 +806,8 @@ def spec_cases(op, arg, out):
             return []
         cc, grid = out[1]
         return [("spec.columns_once", [arg[5], arg[6], len(arg[0]), cc, grid])]
+    if op == "print_frame":
+        return [("spec.print_ok", out)]
     if op == "columns_twice":
         n, cc1, g1, cc2, g2, l1, l2 = out
         return [("spec.columns_once", [arg[5], arg[6], n, cc1, g1]), ("spec.columns_once", [arg[5], arg[6], n, cc2, g2]),
